@@ -21,6 +21,7 @@ type Registry struct {
 	Defaults  map[string]map[string]int `json:"defaults"` // tier -> bounds
 	Harnesses []RegHarness              `json:"harnesses"`
 	Notes     map[string]PropNote       `json:"properties"`
+	Depends   map[string][]string       `json:"depends"` // lemma properties whose obligations a property's argument rests on
 }
 
 type RegHarness struct {
@@ -61,9 +62,24 @@ func labelProps(label string) []string {
 	return strings.Split(head, "|")
 }
 
+// relevantProps is the property being checked plus (thorough tier) its lemma properties.
+var relevantProps []string
+
 func labelHas(label, prop string) bool {
 	for _, p := range labelProps(label) {
 		if p == prop || p == "INV" || p == "GUAR" || p == "MSG" {
+			return true
+		}
+		if len(relevantProps) > 0 && relevantProps[0] == prop && contains(relevantProps[1:], p) {
+			return true
+		}
+	}
+	return false
+}
+
+func containsAny(xs, ys []string) bool {
+	for _, y := range ys {
+		if contains(xs, y) {
 			return true
 		}
 	}
@@ -138,8 +154,13 @@ func cmdCheck(args []string) int {
 
 	var results []*HarnessResult
 	var inconclusive []string
+	// thorough tier: the obligations of the lemma properties this property's argument rests on count too
+	relevantProps = []string{prop}
+	if *tier == "thorough" {
+		relevantProps = append(relevantProps, reg.Depends[prop]...)
+	}
 	for _, h := range reg.Harnesses {
-		if !contains(h.Props, prop) {
+		if !containsAny(h.Props, relevantProps) {
 			continue
 		}
 		if *only != "" && h.Name != *only {
